@@ -259,3 +259,41 @@ def rand_history(rnd, n, max_len=None):
     if f:
         ops.append(f)
     return ops
+
+
+# ---------------------------------------------------------------------------------------------
+# configuration variants of one declaration
+
+def with_feats(base, overrides, drop=()):
+    """Copy of config `base` where the features named in `overrides` ({name: params-list}) are
+    replaced/added and those in `drop` removed. Single attribute (splitting is C10's subject)."""
+    feats = []
+    seen = set()
+    for f in base["feats"]:
+        if f["f"] in drop:
+            continue
+        if f["f"] in overrides:
+            if overrides[f["f"]] is not None:
+                feats.append({"f": f["f"], "params": [list(p) for p in overrides[f["f"]]] + [p for p in f["params"] if p[0] in ("name", "vis", "struct_name")]})
+            seen.add(f["f"])
+        else:
+            feats.append(f)
+    for name, ps in overrides.items():
+        if name not in seen and ps is not None:
+            feats.append({"f": name, "params": [list(p) for p in ps]})
+    # range requires iter and forbids table_inline
+    names = [f["f"] for f in feats]
+    if "range" in names:
+        it = [f for f in feats if f["f"] == "iter"]
+        if not it or ["mode", "table_inline"] in it[0]["params"]:
+            feats = [f for f in feats if f["f"] != "range"]
+    return {"feats": feats, "groups": [len(feats)] if feats else [], "pos": ["pre"] if feats else []}
+
+
+def mode_params(mode):
+    return [] if mode is None else [["mode", mode]]
+
+
+def std_labels(out, m):
+    for k, v in m.labels().items():
+        out.label(k, v)
